@@ -619,7 +619,7 @@ impl Family for Generics {
         &["C07", "C01", "C02", "C03", "C04"]
     }
     fn rule(&self) -> &'static str {
-        "32 generic templates (a two-parameter generic struct whose fields are read inside generic code at an instance with the function's parameters in the other order / shifted; a generic function calling itself with its type parameters swapped; a type parameter of a function / of a method / of an impl block that the signature never mentions (rejected, or valid); a method with a type parameter of its own inside a generic impl, at two instantiations for one receiver type; 8 where the type parameter occurs in the signature only underneath Vec / Ref / array / tuple / Opt / a generic struct / Vec[Ref[.]] / Ref[Vec[.]], each instantiated at two types; a type parameter occurring only in the result type at two instantiations agreeing on the argument-bound parameter, zero-argument generic fixed by the expected type, the same generic at (A,B) and (B,A), Vec/Ref/array element generics, id, pair, apply, Opt unwrap, generic struct with inherent method, trait dispatch through a bound at two impl types, generic calling generic at (T,T), recursive List[T], two bounds, two instances in one program, generic fn as a value, nested instantiation) x 13 type arguments {int32,bool,string,unit,(int32,bool),[int32;2],Vec[int32],Ref[int32],(int32)->int32,S,E2,Opt[int32],Opt[Opt[bool]]} (all ordered pairs for two-parameter templates in thorough, a diagonal band in quick); oracle: output = type-passing reference semantics, emitted Go valid (no type-parameter residue can survive the Go checker); plus the polymorphic-recursion ladder for termination. non-trivial = instantiations at non-scalar types; distinct = distinct source text"
+        "32 generic templates (a two-parameter generic struct whose fields are read inside generic code at an instance with the function's parameters in the other order / shifted; a generic function calling itself with its type parameters swapped; a type parameter of a function / of a method / of an impl block that the signature never mentions (rejected, or valid); a method with a type parameter of its own inside a generic impl, at two instantiations for one receiver type; 8 where the type parameter occurs in the signature only underneath Vec / Ref / array / tuple / Opt / a generic struct / Vec[Ref[.]] / Ref[Vec[.]], each instantiated at two types; a type parameter occurring only in the result type at two instantiations agreeing on the argument-bound parameter, zero-argument generic fixed by the expected type, the same generic at (A,B) and (B,A), Vec/Ref/array element generics, id, pair, apply, Opt unwrap, generic struct with inherent method, trait dispatch through a bound at two impl types, generic calling generic at (T,T), recursive List[T], two bounds, two instances in one program, generic fn as a value, nested instantiation) x 13 type arguments {int32,bool,string,unit,(int32,bool),[int32;2],Vec[int32],Ref[int32],(int32)->int32,S,E2,Opt[int32],Opt[Opt[bool]]} (all ordered pairs for two-parameter templates in thorough, a diagonal band in quick); oracle: output = type-passing reference semantics, emitted Go valid (no type-parameter residue can survive the Go checker); plus 6 polymorphic-recursion programs (a generic function reaching itself at a doubled tuple / Vec / Opt / pair-with-int type, through a second function, through a method) which must terminate, accepted or rejected, and 2 finite chains of 12 and 40 generic functions each calling the next at a larger type, which must compile and print their length. non-trivial = instantiations at non-scalar types; distinct = distinct source text"
     }
     fn cases(&self, tier: Tier) -> Box<dyn Iterator<Item = Value> + '_> {
         let mut v = Vec::new();
@@ -638,7 +638,11 @@ impl Family for Generics {
                 }
             }
         }
-        v.push(json!({"template": "polymorphic-recursion", "a": "int32", "b": "int32"}));
+        // specialisation must terminate (or the program be rejected): every way a generic function can
+        // reach itself at a larger type; and deep but finite instantiation chains must still compile
+        for k in ["tuple-doubling", "vec-wrapping", "opt-wrapping", "pair-with-int", "mutual", "through-method", "finite-depth-12", "finite-depth-40"] {
+            v.push(json!({"template": "polymorphic-recursion", "a": k, "b": "int32"}));
+        }
         Box::new(v.into_iter())
     }
     fn case_timeout(&self, _tier: Tier) -> u64 {
@@ -652,12 +656,51 @@ impl Family for Generics {
         let (t, a, b) = (case["template"].as_str().unwrap(), case["a"].as_str().unwrap(), case["b"].as_str().unwrap());
         if t == "polymorphic-recursion" {
             // f[T](x: T, n) calls f[(T,T)]((x,x), n-1): specialisation must terminate (or be rejected)
-            let text = "fn f[T](x: T, n: int32) -> int32 {\n    if n < 1 { 0 } else { 1 + f((x, x), n - 1) }\n}\n\nfn main() {\n    string_println(int32_to_string(f(1, 3)))\n}\n";
+            let finite = |depth: usize| {
+                // g0[T] calls g1[(T, int32)] calls ... g<depth>: finitely many instances, types of growing size
+                let mut t = String::new();
+                for i in 0..depth {
+                    t.push_str(&format!("fn g{}[T](x: T) -> int32 {{ 1 + g{}((x, {})) }}\n", i, i + 1, i));
+                }
+                t.push_str(&format!("fn g{}[T](x: T) -> int32 {{ 0 }}\nfn main() {{\n    string_println(int32_to_string(g0(true)))\n}}\n", depth));
+                t
+            };
+            let text_owned: String = match a {
+                "vec-wrapping" => "fn f[T](x: T, n: int32) -> int32 {\n    if n < 1 { 0 } else { let v: Vec[T] = vec_new(); 1 + f(vec_push(v, x), n - 1) }\n}\n\nfn main() {\n    string_println(int32_to_string(f(1, 3)))\n}\n".into(),
+                "opt-wrapping" => "enum Opt[T] { Non, Som(T) }\nfn f[T](x: T, n: int32) -> int32 {\n    if n < 1 { 0 } else { 1 + f(Opt::Som(x), n - 1) }\n}\n\nfn main() {\n    string_println(int32_to_string(f(1, 3)))\n}\n".into(),
+                "pair-with-int" => "fn f[T](x: T, n: int32) -> int32 {\n    if n < 1 { 0 } else { 1 + f((x, n), n - 1) }\n}\n\nfn main() {\n    string_println(int32_to_string(f(1, 3)))\n}\n".into(),
+                "mutual" => "fn f[T](x: T, n: int32) -> int32 {\n    if n < 1 { 0 } else { 1 + g((x, x), n - 1) }\n}\nfn g[U](y: U, n: int32) -> int32 { f(y, n) }\n\nfn main() {\n    string_println(int32_to_string(f(1, 3)))\n}\n".into(),
+                "through-method" => "struct Bx[T] { v: T }\nimpl[T] Bx[T] { fn grow(self: Bx[T], n: int32) -> int32 { if n < 1 { 0 } else { let b: Bx[(T, T)] = Bx { v: (self.v, self.v) }; 1 + b.grow(n - 1) } } }\n\nfn main() {\n    let b: Bx[int32] = Bx { v: 1 };\n    string_println(int32_to_string(b.grow(3)))\n}\n".into(),
+                "finite-depth-12" => finite(12),
+                "finite-depth-40" => finite(40),
+                _ => "fn f[T](x: T, n: int32) -> int32 {\n    if n < 1 { 0 } else { 1 + f((x, x), n - 1) }\n}\n\nfn main() {\n    string_println(int32_to_string(f(1, 3)))\n}\n".into(),
+            };
+            let text = text_owned.as_str();
             let path = ctx.scratch.single_path();
             rep.nontrivial_key = Some(text.to_string());
             match crate::oracle::compile_at(&path, text) {
-                crate::oracle::CompileOutcome::Ok(_) => rep.tag("polyrec:accepted"),
-                crate::oracle::CompileOutcome::Err(_) => rep.tag("polyrec:rejected"),
+                crate::oracle::CompileOutcome::Ok(c) => {
+                    rep.tag("polyrec:accepted");
+                    // an accepted program runs: a finite chain prints its length
+                    if a.starts_with("finite-depth-") {
+                        let want = format!("{}\n", a.trim_start_matches("finite-depth-"));
+                        let go = crate::oracle::go_text(&c).unwrap_or_default();
+                        drop(c);
+                        match crate::projects::run_go(&go, FUEL) {
+                            Ok(o) if lossy(&o.stdout) == want => rep.tag("polyrec:finite-chain-agrees"),
+                            Ok(o) => rep.findings.push(Finding { property: "C07", class: "sem.stdout".into(), site: format!("template=polymorphic-recursion;a={}", a), detail: format!("expected {:?} got {:?}", want, lossy(&o.stdout)), replay: json!({"kind": "text", "text": text, "oracle": "total"}) }),
+                            Err(m) if m.starts_with("machinery") => rep.tag("machinery:go-unsupported"),
+                            Err(m) => rep.findings.push(Finding { property: "C07", class: "go.invalid".into(), site: format!("template=polymorphic-recursion;a={};goerr={}", a, normalise_msg(&m)), detail: m, replay: json!({"kind": "text", "text": text, "oracle": "total"}) }),
+                        }
+                    }
+                }
+                crate::oracle::CompileOutcome::Err(e) => {
+                    rep.tag("polyrec:rejected");
+                    if a.starts_with("finite-depth-") {
+                        let (stage, msg) = describe_err(&e);
+                        rep.findings.push(Finding { property: "C07", class: format!("compile.rejected.{}", stage), site: format!("template=polymorphic-recursion;a={};msg={}", a, normalise_msg(&msg)), detail: msg, replay: json!({"kind": "text", "text": text, "oracle": "total"}) });
+                    }
+                }
                 crate::oracle::CompileOutcome::Panic(m) => {
                     let m = normalise_msg(&m);
                     for p in ["C07", "C04"] {
